@@ -888,6 +888,7 @@ class Engine:
             if tracing:
                 sys.setprofile(self._profile)
             normal_end = False
+            _alarm(self.path_seconds)
             try:
                 fn(self)
                 completed = normal_end = True
